@@ -605,9 +605,9 @@ fn expr_has_side_effects(e: &ast::Expr) -> bool {
                     .unwrap_or(false)
         }
         ast::Expr::FieldAccess { obj, .. } => expr_has_side_effects(obj),
-        ast::Expr::Index { array, index, .. } => {
-            expr_has_side_effects(array) || expr_has_side_effects(index)
-        }
+        // `vec_get(v, i)` and `array_get(a, i)` are emitted as `v[i]`, which panics when the
+        // index is out of range: like integer division it must survive when its result is unused.
+        ast::Expr::Index { .. } => true,
         ast::Expr::UnaryOp { expr, .. } => expr_has_side_effects(expr),
         ast::Expr::BinaryOp { op, lhs, rhs, .. } => {
             // Integer division panics on a zero divisor, so it must survive even when
